@@ -522,6 +522,16 @@ theorem decl_stray_attribute_ignored :
     detectXML (cps "<?xml-stylesheet href=\"a\" encoding=\"pi\"?>") true = .ok (some (cps "utf-8")) := by
   decide
 
+/-- `str(info)` (what `print(info)` shows) is the reported encoding, or the empty string when there is none -/
+theorem str_spec (i : Info) :
+    i.str = match i.encoding with
+      | some (c :: t) => c :: t
+      | _ => [] := by
+  unfold Info.str
+  cases h : i.encoding with
+  | none => simp [truthy]
+  | some e => cases e <;> simp [truthy]
+
 /-! ## T20.5 — the document given as text or as bytes
 
 `Model/EncutilsDoc.lean` keeps `str` and `bytes` documents apart (`Doc`) and writes the `isinstance(x, bytes)` guard
